@@ -875,7 +875,11 @@ class RunLengthRaggedArray(RunLength2dArray, IndexableMixin):
     def mean(self, axis=-1, **kwargs):
         if axis in (0, -2):
             return self.sum(axis=0)/self.col_counts()
-        s = self.sum(axis=-1)
+        if np.issubdtype(self._values.dtype, np.integer):
+            # like RunLengthArray.mean: sum in float, so that large values do not wrap around
+            s = self.__class__(self._indices, self._values.astype(float), self._row_len).sum(axis=-1)
+        else:
+            s = self.sum(axis=-1)
         l = self._row_len
         if self._row_len is None:
             l = self._indices[:, -1]
